@@ -388,7 +388,7 @@ func init() {
 	vc.Register(&vc.Check{
 		ID: "C14", Title: "Downtime jails and slashes once; double-signing tombstones for good", Level: "exploration",
 		Rule: "one case = one history (80/200 blocks) with window 6..10, maximum missed 2..4, jail 60 s (= 20 blocks, so locks land before, exactly at and after the jail end), evidence limits 4 blocks / 15 s with height-age and time-age drawn independently, " +
-			"absence streaks of 1..5 blocks across window boundaries, and lock/unlock/weight requests aimed at jailed and tombstoned validators; a reference model written from the statement (miss counters per active validator, slash = floor(fraction*holding) or everything if that is 0, evidence age filter, tombstone) " +
+			"absence streaks of 1..5 blocks across window boundaries, runs of nil precommits (present in the round, not absent: they must not count), and lock/unlock/weight requests aimed at jailed and tombstoned validators; a reference model written from the statement (miss counters per active validator, slash = floor(fraction*holding) or everything if that is 0, evidence age filter, tombstone) " +
 			"is stepped with the same vote records and evidence and compared after every commit: who is jailed (never with fewer than the maximum misses in the last window; always when the maximum is reached inside one window from activation), jail time, growth of the slashed totals exactly equal to one slash per offence, tombstoned validators never regain status, power or membership, jailed validators are released only by a lock after the jail time with all thresholds met. " +
 			"Non-trivial = every committed block; distinct = (jails, evidence items, absentees in the block) and evidence age classes.",
 		Assume: []string{"'active' is read from the chain's own status field (its correctness is C13's subject)", "the proposing validator is never absent"},
